@@ -184,6 +184,20 @@ pub fn run(ctx: &Ctx) -> (Stats, Report) {
             }
         }
     }
+    // blank runs whose length sits at 2^k (k = 8..=20): the widths a narrower counter would have
+    for k in 8..=20u32 {
+        for n in [(1usize << k) - 1, 1 << k, (1 << k) + 1] {
+            for pic in [" ".repeat(n), format!("DD{}MM", " ".repeat(n))] {
+                st.evaluations += 1;
+                st.fps.push(hash_bytes(19, pic.as_bytes()));
+                st.class("blank-run-at-binary-boundary-length");
+                if let Err(m) = check_picture(&pic) {
+                    let short = format!("{}<{} blanks>{}", if pic.starts_with('D') { "DD" } else { "" }, n, if pic.ends_with('M') { "MM" } else { "" });
+                    st.fail(n as u64, Case::new(P, "picture", vec![], vec![pic]), format!("{m} [picture: {short}]").chars().take(600).collect());
+                }
+            }
+        }
+    }
     // token-count limit: 30..=42 tokens of several shapes
     for n in 30..=42usize {
         for unit in ["-", "DD-", "D ", "T", "YYYY", "HH24:", "/"] {
